@@ -75,6 +75,10 @@ type execData struct {
 }
 
 func body(k cfg) func(c *drv.Ctx) {
+	wl := k.wl
+	if wl == nil {
+		wl = workload
+	}
 	return func(c *drv.Ctx) {
 		ed := &execData{k: k}
 		c.Data = ed
@@ -136,7 +140,7 @@ func body(k cfg) func(c *drv.Ctx) {
 		capture = true
 		for j := 0; j < k.nBatch; j++ {
 			b := idx.NewBatch()
-			if err := lww.Fill(b, workload[j]); err != nil {
+			if err := lww.Fill(b, wl[j]); err != nil {
 				panic(err)
 			}
 			jj := j + 1
@@ -619,6 +623,15 @@ func after(c *drv.Ctx) {
 // arbitrary moment. Whoever's call has returned must be in every later crash image, and each
 // batch is all-or-nothing.
 
+// twoSegWorkload: merging suppressed; one delete-only batch obsoletes a document in each of two file
+// segments, so the snapshot committed for it carries two non-empty deletion bitmaps.
+var twoSegWorkload = []lww.Batch{
+	{I("a", 1), I("b", 1), I("c", 1), S(1)},
+	{I("d", 1), I("e", 1), I("f", 1), S(2)},
+	{D("a"), D("f"), S(3)},
+	{I("b", 2), D("e"), S(4)},
+}
+
 var twoSetup = lww.Batch{I("x", 1), I("a", 1), S(0)}
 var twoWorkload = []lww.Batch{
 	{I("b", 1), S(1)},
@@ -809,6 +822,7 @@ func Scenarios() []drv.Scenario {
 		mk(cfg{name: "unsafe-2-persister-workers-3", conf: unsafe2, unsafe: true, nBatch: 3, window: "workload"}, nil, d1r),
 		{Name: "unsafe-inmemory-merge-window", Body: bodyWindow(cfg{name: "unsafe-inmemory-merge-window", conf: unsafe2, unsafe: true, wl: windowWorkload}), After: after, Quick: d1r, Thorough: d2r, Class: "unsafe"},
 		{Name: "unsafe-flush-group-emptied-during-inmemory-merge", Doc: "four unsafe batches pile up behind the parked persister (two flush groups for two workers); a low-priority delete-only batch obsoletes every document of the first group inside the merge window; crash images at every effect boundary", Body: bodyWindow(cfg{name: "unsafe-flush-group-emptied-during-inmemory-merge", conf: unsafe2, unsafe: true, wl: groupWorkload}), After: after, Quick: d1r, Thorough: d2r, Class: "unsafe"},
+		mk(cfg{name: "safe-nomerge-deletions-in-two-segments", conf: map[string]interface{}{"scorchMergePlanOptions": bx.NoMergePlan}, wl: twoSegWorkload, nBatch: 4, window: "workload"}, d0, d1r),
 		{Name: "safe-two-writers", Doc: "safe mode, two concurrent writers: three batches of the first, one delete-only batch of a low-priority second writer landing anywhere; crash images at every effect boundary; an acknowledged batch of either writer must be in the recovered state, each batch all-or-nothing", Body: bodyTwoWriters(cfg{name: "safe-two-writers", wl: twoWorkload, second: twoSecond}), After: after, Quick: []drv.Phase{{Bound: 1, Filter: "restricted+"}}, Thorough: d2r, Class: "safe"},
 		{Name: "safe-batch-between-merge-and-purge", Body: bodyPurgeGate(cfg{name: "safe-batch-between-merge-and-purge", conf: aggressive, wl: purgeWorkload}), After: after, Quick: d0, Thorough: d1r, Class: "safe"},
 		mk(cfg{name: "safe-default", nBatch: 5, window: "workload"}, d0, d2r),
